@@ -28,7 +28,7 @@ func corpus() []*clusterIn {
 		}
 		return serviceIn{NS: ns, Name: name, Ports: []svcPortIn{{Name: "http", Port: 8080, Target: pi(8080)}}, Endpoints: &[]subsetIn{sub}}
 	}
-	classes := []classIn{{"haproxy", ourController}, {"other", "example.com/other"}}
+	classes := []classIn{{Name: "haproxy", Controller: ourController}, {Name: "other", Controller: "example.com/other"}}
 	nss := []nsIn{{"a", [][2]string{{"env", "prod"}}}, {"b", [][2]string{{"env", "dev"}}}}
 	rule := func(backs ...backendIn) ruleIn { return ruleIn{Matches: []matchIn{}, Backends: backs} }
 	route := func(ns, name string, parents []parentIn, hosts []string, rules ...ruleIn) routeIn {
@@ -62,6 +62,35 @@ func corpus() []*clusterIn {
 		Gateways: []gatewayIn{{NS: "a", Name: "gw0", Class: "haproxy", Listeners: []listenerIn{lis("l0", []kindIn{{Kind: "HTTPRoute"}}, &routeNsIn{From: same})}}},
 		Routes:   []routeIn{route("a", "r0", []parentIn{{Name: "gw0"}}, []string{"a.example"}, rule(backendIn{Name: "s0", Port: pi(8080)}))},
 		Services: []serviceIn{svc("a", "s0", 2)}})
+	// a passthrough listener next to a plain one: the root path of the http route moves to HTTPPassthroughBackend
+	pass := lis("l1", []kindIn{}, &routeNsIn{From: same})
+	pass.Protocol, pass.Port, pass.TLS = "TLS", 443, &tlsIn{Mode: ps("Passthrough"), Certs: []string{}}
+	out = append(out, &clusterIn{Controller: ourController, Stamp: true, Classes: classes, Namespaces: nss,
+		Gateways: []gatewayIn{{NS: "a", Name: "gw0", Class: "haproxy", Listeners: []listenerIn{lis("l0", []kindIn{}, &routeNsIn{From: same}), pass}}},
+		Routes: []routeIn{
+			route("a", "r0", []parentIn{{Name: "gw0", Section: ps("l0")}}, []string{"a.example"}, rule(backendIn{Name: "s0", Port: pi(8080)})),
+			route("a", "r1", []parentIn{{Name: "gw0", Section: ps("l1")}}, []string{"a.example"}, rule(backendIn{Name: "s1", Port: pi(8080)}))},
+		Services: []serviceIn{svc("a", "s0", 1), svc("a", "s1", 2)}})
+	// listener hostname against route hostnames (override documented by the project), wildcards on both sides
+	hl := lis("l0", []kindIn{}, &routeNsIn{From: same})
+	hl.Hostname = ps("*.example")
+	out = append(out, &clusterIn{Controller: ourController, Stamp: true, Version: "v1beta1", Classes: classes, Namespaces: nss,
+		Gateways: []gatewayIn{{NS: "a", Name: "gw0", Class: "haproxy", Listeners: []listenerIn{hl}}},
+		Routes: []routeIn{
+			route("a", "r0", []parentIn{{Name: "gw0"}}, []string{"a.example", "b.test"}, rule(backendIn{Name: "s0", Port: pi(8080)})),
+			route("a", "r1", []parentIn{{Name: "gw0"}}, []string{}, rule(backendIn{Name: "s0", Port: pi(8080)}))},
+		Services: []serviceIn{svc("a", "s0", 1)}})
+	// the three API versions enabled, gateways and routes spread over them
+	out = append(out, &clusterIn{Controller: ourController, Stamp: true, Version: "v1", Enabled: []string{"v1", "v1beta1", "v1alpha2"}, Namespaces: nss,
+		Classes: []classIn{{Name: "haproxy", Controller: ourController, V: "v1"}, {Name: "haproxy", Controller: ourController, V: "v1beta1"}, {Name: "haproxy", Controller: ourController, V: "v1alpha2"}},
+		Gateways: []gatewayIn{
+			{NS: "a", Name: "gw0", Class: "haproxy", V: "v1", Listeners: []listenerIn{lis("l0", []kindIn{}, &routeNsIn{From: same})}},
+			{NS: "a", Name: "gw0", Class: "haproxy", V: "v1alpha2", Listeners: []listenerIn{lis("l0", []kindIn{}, &routeNsIn{From: all})}}},
+		Routes: []routeIn{
+			{NS: "a", Name: "r0", V: "v1", Parents: []parentIn{{Name: "gw0"}}, Hostnames: []string{"a.example"}, Rules: []ruleIn{rule(backendIn{Name: "s0", Port: pi(8080)})}},
+			{NS: "a", Name: "r1", V: "v1beta1", Parents: []parentIn{{Name: "gw0"}}, Hostnames: []string{"b.example"}, Rules: []ruleIn{rule(backendIn{Name: "s0", Port: pi(8080)})}},
+			{NS: "a", Name: "r2", V: "v1alpha2", Parents: []parentIn{{Name: "gw0"}}, Hostnames: []string{"a.example"}, Rules: []ruleIn{rule(backendIn{Name: "s0", Port: pi(8080)})}}},
+		Services: []serviceIn{svc("a", "s0", 1)}})
 	for _, c := range out {
 		for i := range c.Routes {
 			if c.Routes[i].Hostnames == nil {
@@ -87,6 +116,44 @@ func corpusFiles() []*clusterIn {
 // oracleApplies: the admission rules are evaluated with the Kind the informer cache reports, on
 // objects the API server would accept.
 func oracleApplies(in *clusterIn) bool { return in.Stamp && !in.Malformed }
+
+// servedTwice: every GatewayClass, Gateway and HTTPRoute also declared in a second API version,
+// both versions enabled.
+func servedTwice(in *clusterIn) *clusterIn {
+	v1 := versionOf(in, "")
+	v2 := "v1beta1"
+	if v1 == "v1beta1" {
+		v2 = "v1"
+	}
+	d := *in
+	d.Enabled = []string{v1, v2}
+	d.Classes, d.Gateways, d.Routes = nil, nil, nil
+	for _, c := range in.Classes {
+		c2 := c
+		c2.V = v2
+		d.Classes = append(d.Classes, c, c2)
+	}
+	for _, g := range in.Gateways {
+		g2 := g
+		g2.V = v2
+		d.Gateways = append(d.Gateways, g, g2)
+	}
+	for _, r := range in.Routes {
+		d.Routes = append(d.Routes, r)
+		if !r.TCP {
+			r2 := r
+			r2.V = v2
+			d.Routes = append(d.Routes, r2)
+		}
+	}
+	return &d
+}
+
+func sameAttachment(a, b *observed) bool {
+	x, y := *a, *b
+	x.Kinds, y.Kinds = nil, nil
+	return canon(x) == canon(y)
+}
 
 func main() {
 	o := hx.Parse()
@@ -124,11 +191,51 @@ func main() {
 			res.Count("malformed")
 		}
 		res.Sample(5, map[string]interface{}{"input": in, "observed": obs})
+		if len(in.Enabled) > 1 {
+			res.Count("versions=mixed")
+		} else {
+			res.Count("version=" + versionOf(in, ""))
+		}
+		if len(obs.Pass) > 0 {
+			res.Count("ssl-passthrough-hosts")
+		}
 		if oracleApplies(in) {
 			res.OracleChecks++
 			if k, what := oracle(in, obs); k != "" {
 				res.Count("oracle_fail_" + k)
 				res.Fail(hx.Failure{Key: "C10/" + k, What: what, Input: in, Observed: obs})
+			}
+			for d := range expect(in).diverge {
+				res.Count("project-docs-vs-gateway-api:" + d)
+			}
+			// the same objects declared through each API version must attach identically
+			if len(in.Enabled) <= 1 {
+				res.OracleChecks++
+				for _, v := range []string{"v1", "v1beta1", "v1alpha2"} {
+					if v == versionOf(in, "") {
+						continue
+					}
+					alt := *in
+					alt.Version = v
+					o2 := e.run(&alt)
+					if !sameAttachment(obs, o2) {
+						res.Count("oracle_fail_version-differs")
+						res.Fail(hx.Failure{Key: "C10/version-differs", What: fmt.Sprintf("declared in %s and in %s the same objects attach differently", versionOf(in, ""), v),
+							Input: in, Observed: obs, Expected: o2})
+						break
+					}
+				}
+				// a real API server serves every object in all versions: with two versions enabled the
+				// second sync reads the same objects again and must change nothing
+				if !expect(in).hasPass {
+					dup := servedTwice(in)
+					o3 := e.run(dup)
+					if !sameAttachment(obs, o3) {
+						res.Count("oracle_fail_second-version-not-idempotent")
+						res.Fail(hx.Failure{Key: "C10/second-version-not-idempotent", What: "the same objects read through two enabled API versions attach differently from one version",
+							Input: dup, Observed: o3, Expected: obs})
+					}
+				}
 			}
 		}
 		if !o.Search {
